@@ -3,6 +3,11 @@
 import json
 ALL = ["C%02d" % i for i in range(1, 21)]
 CHECKS = {
+ "C19": dict(
+   technique="bounded-exhaustive enumeration of front-end calls (C01 policy tuples n<=2/3 x 5 input shapes x id spellings x schema syntax x validateRequest x data form x 5-7 requests for is_authorized_json; validate/format/check_parse/convert grids) compared with the plain Rust API, explicit-state BFS to fixpoint over the stateful cache (81 states x 36 ops, each history in a fresh thread), and a CLI grid run through the real `cedar` binary",
+   text="Model checking: the FFI legs enumerate every call shape of the bounded space and compare decision, reasons, erroring ids, evaluation/validation messages and converted documents with the same inputs assembled through the Rust API (and the reference authorizer); the stateful cache is an explicit-state search over preparse/authorize operations in lock-step with a name->object model, observing the whole cache after every transition and requiring a fresh thread to see an empty cache; the CLI leg runs the real binary and compares exit status and printed output.",
+   note="Trusted base: the Rust API as comparison partner (itself checked by C01-C12), refsem authorizer. The CLI is built from /repo by the check (dev profile) into /verif/target/cli. Messages of input-assembly failures are not compared. cedar-wasm is not covered (re-exports).",
+   design="§3 C19, §8"),
  "C20": dict(
    technique="bounded-exhaustive sweeps in child processes: all token sequences <=3/4 over Cedar policy and schema token alphabets spliced into 4-5 positions, all byte strings <=2 (quick: a stated cut), string-escape and extension-value strings, nesting generators to depth 48, every single (thorough: pairs of) structural mutation of 17 JSON seed documents, byte substitutions/deletions/prefixes of text and protobuf seeds, into 77 entry points; every Ok object continues down the whole pipeline and every error is rendered; oracle = returns and terminates",
    text="Model checking in the small-scope sense for a safety property (no panic / abort / non-termination): the complete space of short inputs over small alphabets plus single-deviation mutations of valid documents is fed to every public entry point under catch_unwind in sharded child processes (so aborts and stack overflows are attributed to one input), every accepted object is pushed through print / to_json / to_pst / format / validate (strict, permissive, levels) / authorize / partial / TPE / batched / manifest / link / merge / protobuf, and every error or warning is rendered with Display, Debug, the miette graphical handler and ffi::DetailedError.",
